@@ -27,7 +27,8 @@ ASSUMPTIONS = [
 ]
 FLOORS = {'library_calls': 20000, 'formula_calls': 300,
           'identity_checks': 200, 'functions_seen': 13,
-          'non_text_arguments': 50, 'text_form_views': 100}
+          'non_text_arguments': 50, 'text_form_views': 100,
+          'blank_count_cases': 40}
 ANCHOR_FUNCS = {'xlcalculator/xlfunctions/text.py': [
     'LEN', 'LEFT', 'RIGHT', 'MID', 'FIND', 'REPLACE', 'UPPER', 'LOWER',
     'TRIM', 'EXACT', 'CONCAT', 'CONCATENATE']}
@@ -308,6 +309,61 @@ def run(ctx):
         R.one('FIND', (1, v), ('FIND', 'nontext', repr(v)), True)
         R.one('REPLACE', (v, 1, 1, 9), ('REPLACE', 'nontext', repr(v)), True)
     R.flush()
+
+    # ---- a blank where a count or position is expected counts as 0 (C08), it
+    # is not "argument omitted"; canonically equivalent spellings of a letter
+    # are different texts -----------------------------------------------------
+    if ctx.shard in (2, 3) or thorough:
+        from xlcalculator.xlfunctions import func_xltypes as T_
+        for s_ in ('abc', 'a', '', 'héllo 𝄞'):
+            for blank in (None, T_.BLANK):
+                for fname, zero_args, blank_args in (
+                        ('LEFT', (s_, 0), (s_, blank)),
+                        ('RIGHT', (s_, 0), (s_, blank)),
+                        ('MID', (s_, 1, 0), (s_, 1, blank)),
+                        ('FIND', ('a', s_, 0), ('a', s_, blank)),
+                        ('REPLACE', (s_, 1, 0, 'X'), (s_, 1, blank, 'X'))):
+                    want = to_want(ref_call(fname, zero_args))
+                    got = monitors.call_outcome(R.F[fname], *blank_args)
+                    ctx.event('library_calls')
+                    ctx.event('blank_count_cases')
+                    ctx.case((fname, 'blank-count', text_class(s_)))
+                    ok = (got[0] == 'value' and got[1][0] == 'err') \
+                        if want == ERR else got == ('value', want)
+                    if not ok:
+                        shown = tuple('<blank>' if a is blank else a
+                                      for a in blank_args)
+                        ctx.fail(f'{fname}{shown!r} observed {got}, reference '
+                                 f'{want} (a blank count or position is 0)',
+                                 {'function': fname,
+                                  'args': [repr(a) for a in shown],
+                                  'observed': got, 'reference': want},
+                                 monitor='string-reference',
+                                 group=f'blank-count:{fname}')
+        forms3 = {'=LEFT(A1,Z9)': ('text', ''), '=RIGHT(A1,Z9)': ('text', ''),
+                  '=MID(A1,2,Z9)': ('text', ''),
+                  '=LEFT(A1,Z9)&RIGHT(A1,LEN(A1)-Z9)=A1': ('bool', True),
+                  '=ISERROR(FIND("a",A1,Z9))': ('bool', True),
+                  '=REPLACE(A1,2,Z9,"X")': ('text', 'aXbc')}
+        outs3 = subject.eval_batch(list(forms3), {'A1': 'abc'})
+        for (text, want), got in zip(forms3.items(), outs3):
+            ctx.event('formula_calls')
+            ctx.event('blank_count_cases')
+            ctx.case(('blank-count-formula', text))
+            if got != ('value', want):
+                ctx.fail(f'{text} with A1="abc" and Z9 empty: observed {got}, '
+                         f'reference {want} (a blank count is 0)',
+                         {'formula': text, 'cells': {'A1': 'abc'},
+                          'observed': got, 'reference': want},
+                         monitor='string-reference', group='blank-count')
+        for a_, b_ in (('\u00e9', 'e\u0301'), ('\u212b', '\u00c5'),
+                       ('\uac00', '\u1100\u1161'), ('a\u0301\u0323',
+                                                      'a\u0323\u0301')):
+            R.one('EXACT', (a_, b_), ('EXACT', 'canonically-equivalent',
+                                      repr(a_)), True)
+            R.one('LEN', (a_,), ('LEN', 'combining', repr(a_)))
+            R.one('LEN', (b_,), ('LEN', 'combining', repr(b_)))
+        R.flush()
 
     # ---- one text form per number ------------------------------------------------
     # For numbers whose shortest decimal form is long (1/3, 0.1+0.2, ...) the
